@@ -988,6 +988,7 @@ def ifn(world, qualname, keep=()):
         return go(root)
 
     inl = cache[key] = _Inl(world, keep=names)
+  qualname = locate(world, qualname)
   try:
     return inl.fn(qualname)
   except AnalysisError:
@@ -1212,3 +1213,39 @@ def repo_callees(world, fn, call):
     return list(cg.resolve(fn, call))
   except Exception:
     return []
+
+
+def locate(world, qualname):
+  """Qualified name under which an anchor function is found now. The given name first; when it is
+  gone, the one function of the same module that carries the same (private) name elsewhere -- a
+  self-less method moved to module level, a module function moved into a class, a method moved to
+  another class of the module. AnalysisError when there is none or several."""
+  repo = world.repo
+  if repo.has_func(qualname):
+    return qualname
+  parts = qualname.split(".")
+  name = parts[-1]
+  # the module is the longest prefix that names one
+  mod = None
+  for i in range(len(parts) - 1, 0, -1):
+    try:
+      mod = repo.module(".".join(parts[:i]))
+      break
+    except Exception:
+      continue
+  if mod is None:
+    raise AnalysisError("anchor function vanished: %s" % qualname)
+  cands = [q for q, fi in repo.funcs.items()
+           if fi.module is mod and q.rsplit(".", 1)[-1] == name and fi.parent is None]
+  if len(cands) == 1:
+    return cands[0]
+  raise AnalysisError("anchor function vanished: %s%s" % (
+    qualname, " (several functions of that name)" if cands else ""))
+
+
+def own_params(fn):
+  """Parameters of a function without the receiver of a method."""
+  ps = list(fn.fi.params())
+  if getattr(fn.fi, "cls", None) is not None and ps[:1] in (["self"], ["cls"]):
+    ps = ps[1:]
+  return ps
